@@ -479,6 +479,14 @@ def gen_graph(rng):
             graph[a].append(b)
         if a not in graph[b]:
             graph[b].append(a)
+    if not cyclic and rng.random() < 0.12 and len(perm) >= 2:
+        # a definition that names its own key among its arguments AND is needed by another derived key: a circle of length one is a circle
+        k0 = perm[0]
+        if k0 not in graph[k0]:
+            graph[k0] = graph[k0] + [k0]
+        dependant = perm[-1]
+        if k0 not in graph[dependant]:
+            graph[dependant] = graph[dependant] + [k0]
     plain = {}
     if rng.random() < 0.3:
         plain = {'pz': 99}
